@@ -665,7 +665,9 @@ func init() {
 					L.reg.Insert(lv, cf.LocalBase)
 				}
 				// +inline-call L.initCallFrame cf
-				// +inline-call L.reg.CopyRange base RA -1 reg.Top()-RA-1
+				// the frame occupies [RA, Top): the callee at RA and every register up to the last one (a vararg
+				// function's arg table may sit in the very last register)
+				// +inline-call L.reg.CopyRange base RA -1 reg.Top()-RA
 				cf.Base = base
 				cf.LocalBase = base + (cf.LocalBase - lbase + 1)
 			}
